@@ -76,6 +76,10 @@ C = [
   [("pkg/core/storage/leveldb_store.go", "\t\tnext = iter.Prev", "\t\tnext = iter.Next")]),
  ("C01-whitelist-fee-reset-skips-cache", "C01", "cache-pairing", "re-setting a whitelisted method's fee stores the record but skips the cache (the repaired defect)",
   [("pkg/core/native/policy.go", "\t} else {\n\t\tcache.whitelistedContracts[i] = c\n\t}\n", "\t}\n")]),
+ ("C03-historic-vm-gc-flag", "C03", "historic-root", "GetTestHistoricVM opens the historic trie store with ModeGCFlag (the repaired defect)",
+  [("pkg/core/blockchain.go", "\t\tmode |= mpt.ModeLatest", "\t\tmode |= mpt.ModeGCFlag")]),
+ ("C03-historic-window-underflow", "C03", "unsigned-window", "the retained-window test subtracts unsigned heights without testing their order (the repaired defect)",
+  [("pkg/core/blockchain.go", "if h, mtb := bc.BlockHeight(), bc.GetMaxTraceableBlocks(); h > mtb && b.Index < h-mtb {", "if b.Index < bc.BlockHeight()-bc.GetMaxTraceableBlocks() {")]),
 ]
 
 root = "/verif/controls"
